@@ -101,6 +101,24 @@ Proof. intros a Ha. induction r; simpl; auto. rewrite cnt_app, (nz_cfresh _ a Ha
 Lemma nz_rows_cfresh l : nz_free (flat_map (flat_map ids_slot) (map (map cfresh) l)).
 Proof. intros a Ha. induction l; simpl; auto. rewrite cnt_app, (nz_map_cfresh _ a Ha). exact IHl. Qed.
 
+Lemma nz_mk_cs rows : nz_free (flat_map (flat_map ids_slot) rows) -> nz_free (ids_slot (mk_cs rows)).
+Proof.
+  intros H a Ha. destruct rows as [|r rows]; [reflexivity|]. unfold mk_cs.
+  change (ids_slot (CS (Some (0, r :: rows, [])))) with (0 :: flat_map (flat_map ids_slot) (r :: rows) ++ []).
+  rewrite cnt_zero_head, app_nil_r by auto. apply H; auto.
+Qed.
+Lemma nz_craw r : nz_free (ids_slot (craw r)).
+Proof.
+  induction r as [|t z|zs|kvs IH|l IH] using raw_ind'; intros a Ha; simpl; auto.
+  - rewrite cnt_zero_head, app_nil_r by auto.
+    destruct zs; simpl; auto. rewrite cnt_zero_head, app_nil_r by auto.
+    induction zs; simpl; auto.
+  - rewrite cnt_zero_head, app_nil_r by auto. apply nz_mk_cs; auto. clear a Ha. intros a Ha.
+    induction IH as [|kv kvs Hkv _ IHk]; simpl; auto. rewrite app_nil_r, cnt_app, (Hkv a Ha). exact IHk.
+  - rewrite cnt_zero_head, app_nil_r by auto. apply nz_mk_cs; auto. clear a Ha. intros a Ha.
+    induction IH as [|v l Hv _ IHk]; simpl; auto. rewrite app_nil_r, cnt_app, (Hv a Ha). exact IHk.
+Qed.
+
 (* ---- slot functions of the local operations take addresses only from the slot they replace ------------------ *)
 Lemma ids_cs s : is_cs s = true ->
   forall a, a <> 0 -> cnt (ids_slot s) a =
@@ -171,6 +189,11 @@ Proof.
   - apply prim_copy_le. apply nz_prim_rows.
   - intros a Ha. simpl. rewrite cnt_zero_head, app_nil_r by auto.
     pose proof (prim_copy_le (prim_rows zs) (CS None) (nz_prim_rows zs) a Ha) as K. simpl in K. liac.
+  - intros a Ha. rewrite (nz_craw r a Ha). lia.
+  - intros a Ha. rewrite nz_mk_cs; auto; [lia|]. clear. intros a Ha.
+    induction kvs as [|kv kvs IH]; simpl; auto. rewrite app_nil_r, cnt_app, (nz_craw (snd kv) a Ha). exact IH.
+  - intros a Ha. rewrite nz_mk_cs; auto; [lia|]. clear. intros a Ha.
+    induction l as [|v l IH]; simpl; auto. rewrite app_nil_r, cnt_app, (nz_craw v a Ha). exact IH.
 Qed.
 
 (* ---- CopyTo takes addresses only from the destination -------------------------------------------------------- *)
